@@ -170,8 +170,11 @@ def outboxOrderMon : Mon where
     match c with
     | .batchDeliver _ _ => if s.failed || !s.stored then none else some { s with delivered := s.delivered + 1 }
     | .setOutbox v => some { s with stored := s.stored || respOk (.setOutbox v) r, failed := s.failed || !respOk (.setOutbox v) r }
-    | .deref _ => some s                      -- unreachable recipients are skipped, not failures
-    | c => if (c.isDb || c.isSideEffectCb || c.isTransport) && !respOk c r then some { s with failed := true } else some s
+    | .unlock _ => some s                     -- the library cannot act on a failing Unlock
+    | c =>
+      -- a step of the identify / side-effect / store phase answered with an error (delivery-phase failures —
+      -- unreachable recipients, a failing transport — come after the outbox was updated and are not such steps)
+      if !s.stored && (c.isDb || c.isSideEffectCb) && !respOk c r then some { s with failed := true } else some s
 
 /-! ### C06: the block check sees an id for every actor, before any side effect -/
 
